@@ -605,6 +605,25 @@ pub fn exec(s: &J) -> J {
             jsonb::convert_to_comparable(i0, buf);
             Ok(())
         }),
+        "comparable_all" => {
+            // the key of the binary form and of every text spacing of the same document
+            let v = &vals[0];
+            ev.insert(
+                "res".into(),
+                guard(|| {
+                    let mut ks = Vec::new();
+                    let mut k = Vec::new();
+                    jsonb::convert_to_comparable(&encode_value(v), &mut k);
+                    ks.push(bytes_to_j(&k));
+                    for sp in 0..3u64 {
+                        let mut k = Vec::new();
+                        jsonb::convert_to_comparable(&render_text(v, sp, &fl), &mut k);
+                        ks.push(bytes_to_j(&k));
+                    }
+                    json!({"t":"keyset","k":ks})
+                }),
+            );
+        }
         "comparable2" => {
             ev.insert(
                 "res".into(),
